@@ -124,6 +124,9 @@ def run(
     cmd = ["java", "-XX:+UseParallelGC", "-Xmx" + heap]
     if deque:
         cmd.append("-Dtlc2.tool.queue.IStateQueue=StateDeque")
+    if dump:
+        # TLC pretty-prints dumped values to 80 columns, which dominates a dumping run; one value per line instead
+        cmd.append("-Dtlc2.value.Values.width=100000000")
     cmd += ["-cp", JAR, "tlc2.TLC", "-workers", str(workers), "-metadir", os.path.join(wd, "meta"), "-noGenerateSpecTE", "-config", "MC.cfg"]
     if coverage and not simulate:
         cmd += ["-coverage", "1"]
